@@ -1,5 +1,6 @@
 import TemplVerif.Model.Norm
 import TemplVerif.Proofs.Norm
+import TemplVerif.Proofs.Spaced
 /-
 C08 — formatting never changes what a template renders.
 Proved: two template bodies in the same layout class (Norm.body) generate the SAME statements, hence (C02) render the
@@ -19,6 +20,22 @@ theorem C08_same_class_same_rendering (b b' : Nodes) (h : Norm.body b = Norm.bod
     Gen.run b env = Gen.run b' env := by
   unfold Gen.run
   rw [C08_same_class_same_program b b' h]
+
+/-- On the printer fragment (C09's `Printer` / `Reparse`): a parser-built tree whose source already has white space
+    wherever the printer breaks a line next to inline content (`Spaced.body`) is re-parsed, after formatting, into a tree
+    of the SAME layout class — so (with the theorems above) formatting it changes neither the generated statements nor
+    what they render. The templates that violate `Spaced.body` are exactly where the known finding (a space added between
+    glued inline neighbours) lives. -/
+theorem C08_fragment_class_kept (b : Nodes) (hf : Printer.nodesInFragment b = true) (hw : Reparse.wfNodes b = true)
+    (hs : Spaced.body b = true) :
+    Norm.body (Reparse.body b) = Norm.body b :=
+  Proofs.Spaced.class_kept b hf hw hs
+
+theorem C08_fragment_same_program (b : Nodes) (hf : Printer.nodesInFragment b = true) (hw : Reparse.wfNodes b = true)
+    (hs : Spaced.body b = true) (env : Env) :
+    Gen.genTemplate (Reparse.body b) = Gen.genTemplate b ∧ Gen.run (Reparse.body b) env = Gen.run b env :=
+  ⟨C08_same_class_same_program _ _ (C08_fragment_class_kept b hf hw hs),
+   C08_same_class_same_rendering _ _ (C08_fragment_class_kept b hf hw hs) env⟩
 
 theorem C08_norm_projection (b : Nodes) : Norm.body (Norm.body b) = Norm.body b :=
   Proofs.Norm.norm_idem b
